@@ -72,6 +72,8 @@
  */
 #include "mc.h"
 
+#include <limits.h>
+
 #include <ufw/compat/errno.h>
 
 #include <ufw/endpoints.h>
@@ -127,6 +129,30 @@ errname(int rc)
     return b;
 }
 
+/* The error alphabet of the "returned unchanged" sentence: every errno value
+ * the platform defines (Linux: 1..133, the two unassigned numbers 41 and 58
+ * included - a driver may answer any negative number) and a few negative
+ * values no errno has: just below the table, around the limits of 8/12/16 bit
+ * storage, and the ends of int.  Several of them are codes rfc1055.c itself
+ * uses as sentinels (-ENODATA = the source's "no more payload", -EILSEQ = its
+ * own "invalid escape", -EAGAIN/-EINTR = "call again"); the statement makes no
+ * exception for them when a *driver* answers them. */
+#define ERRNO_LAST 133
+static int ALPHA[ERRNO_LAST + 16];
+static int NALPHA;
+
+static void
+alpha_build(void)
+{
+    static const int extra[] = { -(ERRNO_LAST + 1), -255, -256, -1000, -4095, -4096, -32768, -32769,
+                                 -65536, INT_MIN + 1, INT_MIN };
+    NALPHA = 0;
+    for (int e = 1; e <= ERRNO_LAST; ++e)
+        ALPHA[NALPHA++] = -e;
+    for (size_t i = 0; i < sizeof extra / sizeof *extra; ++i)
+        ALPHA[NALPHA++] = extra[i];
+}
+
 /* ------------------------------------------------------------------------- */
 /* scripted drivers                                                          */
 
@@ -135,9 +161,12 @@ enum kind { K_OCTET, K_CHUNK };
 /* answers of a scripted sink, per call position (default: take everything) */
 enum answer { A_ALL, A_ONE /* short write: one octet of several */,
               A_ZERO /* zero-length return to a write of several octets */,
-              A_EAGAIN, A_EINTR, A_EIO, A_NANSWERS };
+              A_EAGAIN, A_EINTR, A_EIO,
+              A_ENODATA /* a hard error whose code is the one the encoder's source ends with */,
+              A_NANSWERS };
 #define ANS_BIT(a) (1u << (a))
-static const char *const ANS_NAME[A_NANSWERS] = { "all", "short", "zero", "-EAGAIN", "-EINTR", "-EIO" };
+#define ANS_HARD (ANS_BIT(A_EIO) | ANS_BIT(A_ENODATA))
+static const char *const ANS_NAME[A_NANSWERS] = { "all", "short", "zero", "-EAGAIN", "-EINTR", "-EIO", "-ENODATA" };
 
 struct src {
     const unsigned char *d;
@@ -205,6 +234,7 @@ snk_answer(struct snk *s, long k, size_t n)
     case A_EAGAIN: s->answered |= ANS_BIT(a); return -EAGAIN;
     case A_EINTR: s->answered |= ANS_BIT(a); return -EINTR;
     case A_EIO: s->answered |= ANS_BIT(a); s->fired = true; return s->fcode = -EIO;
+    case A_ENODATA: s->answered |= ANS_BIT(a); s->fired = true; return s->fcode = -ENODATA;
     case A_ZERO:
         /* only a write of several octets is answered with 0: what a zero
          * answer to a single-octet call means to the caller of
@@ -983,6 +1013,11 @@ anchors(void)
     MC_ANCHOR(first_invalid_escape(with_error, sizeof with_error, 14) == 15, "with_error: ESC EOF at offset 15");
     k = parse_run(true, with_error, sizeof with_error, 17, fr);
     MC_ANCHOR(k == 1 && fr[0].n == 3 && !memcmp(fr[0].pl, "foo", 3), "with_error: foo behind the errors");
+#ifdef EHWPOISON
+    MC_ANCHOR(EHWPOISON == ERRNO_LAST, "the platform's errno table ends at 133");
+#endif
+    MC_ANCHOR(ENODATA <= ERRNO_LAST && EILSEQ <= ERRNO_LAST && EAGAIN <= ERRNO_LAST && EINTR <= ERRNO_LAST,
+              "the codes rfc1055 gives a meaning to are part of the alphabet");
     MC_ANCHOR(-EILSEQ < 0 && -ENODATA < 0 && EILSEQ != ENODATA && EIO != EILSEQ && EPIPE != EILSEQ
               && EIO != ENODATA && EPIPE != ENODATA, "error codes are distinct");
 }
@@ -1557,6 +1592,126 @@ family_fault_decode(const struct sset *ss)
         }
 }
 
+/* (d'') the whole error alphabet.  "Source or sink errors are returned
+ * unchanged" names no code: every code of ALPHA[] is answered by the source
+ * and by the sink at every driver call position of the encoder and of the
+ * decoder, through octet drivers (context from rfc1055_context_init) and
+ * through chunk drivers (context from the static initialiser; an escape pair
+ * then reaches the sink in one call).  Readings kept from (d)/(d')/(g):
+ *   - -EAGAIN/-EINTR answered to the encoder, or by the sink of the decoder:
+ *     unchanged, or the call is retried (then the result is complete);
+ *   - -EAGAIN/-EINTR answered by the decoder's source are interruptions
+ *     (family g), not generated here;
+ *   - -ENODATA answered by the *encoder's source* is that source's way to say
+ *     "no more payload" (it is how every encode ends), not an error: not
+ *     generated.  Answered by a sink, or by the decoder's source in the middle
+ *     of the stream, it is a code like any other: returned unchanged; behind
+ *     it the decoder owes what it owes behind any failure (resynchronisation). */
+static void
+family_alphabet_encode(size_t maxlen)
+{
+    unsigned char p[8], ref[24];
+    for (int sof = 0; sof < 2; ++sof)
+        for (int kind = 0; kind < 2; ++kind)
+            for (size_t n = 0; n <= maxlen; ++n)
+                for (uint64_t idx = 0; idx < P5[n]; ++idx) {
+                    nth_string(n, idx, p);
+                    const size_t m = ref_encode(sof, p, n, ref);
+                    for (int which = 0; which < 2; ++which) {
+                        /* sink: at most one call per octet of the encoding (chunk
+                         * drivers need fewer: the positions behind are "not
+                         * reached"); source: one per payload octet plus the end */
+                        const long npos = which == 0 ? (long)m : (long)n + 1;
+                        for (long at = 0; at < npos; ++at)
+                            for (int ci = 0; ci < NALPHA; ++ci) {
+                                const int code = ALPHA[ci];
+                                if (which && code == -ENODATA)
+                                    continue;
+                                if (!mc_would_run()) {
+                                    mc_skip_case();
+                                    continue;
+                                }
+                                mc_case("fault-alphabet-encode mode=%s drivers=%s payload=%s %s-call=%ld code=%s",
+                                        modename(sof), kind == K_CHUNK ? "chunk/static-initialiser" : "octet/init-function",
+                                        hex(p, n), which ? "source" : "sink", at, errname(code));
+                                struct inject inj = { which ? at : -1, which ? -1 : at, code, 0, 0 };
+                                run_encoder(sof, kind == K_OCTET, (enum kind)kind, p, n, inj, false);
+                                const bool fired = which ? E.sfired : E.kfired;
+                                if (E.hang)
+                                    mc_fail("C12/hang", "encode exceeded the driver call budget");
+                                else if (fired && E.rc != code) {
+                                    if (!TRANSIENT(code) || E.rc < 0)
+                                        mc_fail(which ? "C12/source-error-unchanged" : "C12/sink-error-unchanged",
+                                                "%s failed with %s, encode returned %s", which ? "source" : "sink",
+                                                errname(code), errname(E.rc));
+                                    else /* retried the interrupted call: then the encoding is complete */
+                                        judge_complete_encoding(sof, kind == K_OCTET, p, n);
+                                } else if (!fired && E.rc < 0)
+                                    mc_fail("C12/encode-succeeds", "no driver failed, encode returned %s", errname(E.rc));
+                                mc_end(fired, !fired ? "fault-not-reached"
+                                       : which ? (TRANSIENT(code) ? "encode-source-interrupted" : "encode-source-error-alphabet")
+                                       : (TRANSIENT(code) ? "encode-sink-interrupted" : "encode-sink-error-alphabet"));
+                            }
+                    }
+                }
+}
+
+static void
+family_alphabet_decode(const struct sset *ss_octet, const struct sset *ss_chunk)
+{
+    unsigned char st[40];
+    size_t n;
+    for (int sof = 0; sof < 2; ++sof)
+        for (int kind = 0; kind < 2; ++kind) {
+            const struct sset *ss = kind == K_CHUNK ? ss_chunk : ss_octet;
+            const uint64_t ns = sset_count(ss);
+            for (uint64_t sid = 1; sid < ns; ++sid) {
+                sset_get(ss, sof, sid, st, &n);
+                for (int which = 0; which < 2; ++which) {
+                    const long npos = which ? (long)n + 1 : (long)n;
+                    for (long at = 0; at < npos; ++at)
+                        for (int ci = 0; ci < NALPHA; ++ci) {
+                            const int code = ALPHA[ci];
+                            if (which && TRANSIENT(code))
+                                continue; /* interruptions of the source: family (g) */
+                            if (!mc_would_run()) {
+                                mc_skip_case();
+                                continue;
+                            }
+                            mc_case("fault-alphabet-decode mode=%s drivers=%s stream=%s %s-call=%ld code=%s, decoding continued",
+                                    modename(sof), kind == K_CHUNK ? "chunk/static-initialiser" : "octet/init-function",
+                                    hex(st, n), which ? "source" : "sink", at, errname(code));
+                            struct inject inj = { which ? at : -1, which ? -1 : at, code, 0, 0 };
+                            run_decoder(sof ? RFC1055_WITH_SOF : RFC1055_DEFAULT, -1, kind == K_OCTET, (enum kind)kind,
+                                        st, n, inj);
+                            judge(sof, true, true, st, n, -1);
+                            bool fired = false;
+                            size_t behind = 0;
+                            for (int i = 0; i < R.n; ++i) {
+                                const struct dcall *c = &R.c[i];
+                                if (!(c->sfired || c->kfired))
+                                    continue;
+                                fired = true;
+                                behind = c->off1;
+                                /* the sink's "call again": the decoder may have done so itself */
+                                const bool retried = TRANSIENT(code)
+                                    && (c->rc == 1 || c->rc == -EILSEQ || (c->rc == -ENODATA && c->off1 == n));
+                                if (c->rc != code && !retried)
+                                    mc_fail(which ? "C12/source-error-unchanged" : "C12/sink-error-unchanged",
+                                            "%s failed with %s during call %d, decode returned %s",
+                                            which ? "source" : "sink", errname(code), i, errname(c->rc));
+                            }
+                            if (fired && !R.hang && !R.overflow)
+                                judge_from(sof, false, false, st, n, -1, behind);
+                            mc_end(fired, !fired ? "fault-not-reached"
+                                   : which ? "decode-source-error-alphabet"
+                                   : TRANSIENT(code) ? "decode-sink-interrupted" : "decode-sink-error-alphabet");
+                        }
+                }
+            }
+        }
+}
+
 /* (g) the source interrupts the decoder: -EAGAIN / -EINTR at every source
  * call position (one interruption; two, also back to back), both modes, both
  * ways to set a context up, octet and chunk drivers; same context, same
@@ -1661,14 +1816,16 @@ judge_scripted_encode(bool sof, bool initfn, const unsigned char *p, size_t n)
      * tries to close the frame and meets a second error may report either). */
     const bool answered_rc = (E.rc == -EAGAIN && (E.answered & ANS_BIT(A_EAGAIN)))
         || (E.rc == -EINTR && (E.answered & ANS_BIT(A_EINTR)))
-        || (E.rc == -EIO && (E.answered & ANS_BIT(A_EIO)));
+        || (E.rc == -EIO && (E.answered & ANS_BIT(A_EIO)))
+        || (E.rc == -ENODATA && (E.answered & ANS_BIT(A_ENODATA)));
     if (E.hang) {
         mc_fail("C12/hang", "encode exceeded the driver call budget");
-    } else if (E.answered & ANS_BIT(A_EIO)) {
+    } else if (E.answered & ANS_HARD) {
         /* a hard error was answered: encode cannot report success, and what
          * it reports is an error the sink answered */
         if (!answered_rc)
-            mc_fail("C12/sink-error-unchanged", "sink failed with -EIO%s%s, encode returned %s",
+            mc_fail("C12/sink-error-unchanged", "sink failed with %s%s%s, encode returned %s",
+                    (E.answered & ANS_BIT(A_EIO)) ? ((E.answered & ANS_BIT(A_ENODATA)) ? "-EIO and -ENODATA" : "-EIO") : "-ENODATA",
                     (E.answered & ANS_BIT(A_EAGAIN)) ? " and answered -EAGAIN" : "",
                     (E.answered & ANS_BIT(A_EINTR)) ? " and answered -EINTR" : "", errname(E.rc));
     } else if (E.rc < 0) {
@@ -1704,7 +1861,7 @@ scripted_encode_case(bool sof, enum kind kind, const unsigned char *p, size_t n,
     mc_end(E.answered != 0, ndev > 1 ? "encode-sink-two-deviations"
            : (has & ANS_BIT(A_ONE)) ? "encode-sink-short-write"
            : (has & ANS_BIT(A_ZERO)) ? "encode-sink-zero-write"
-           : (has & ANS_BIT(A_EIO)) ? "encode-sink-hard-error" : "encode-sink-interrupt");
+           : (has & ANS_HARD) ? "encode-sink-hard-error" : "encode-sink-interrupt");
 }
 
 static void
@@ -1852,6 +2009,7 @@ main(int argc, char **argv)
             PLN[k++] = n;
         }
     anchors();
+    alpha_build();
     const bool th = mc_thorough();
 
     family_roundtrip(th ? 9 : 7);
@@ -1872,6 +2030,12 @@ main(int argc, char **argv)
         family_fault_decode(th ? &fd_t : &fd_q);
     }
     family_encode_scripts(th ? 6 : 4, th ? 4 : 3, th ? 6 : 5);
+    family_alphabet_encode(th ? 4 : 3);
+    {
+        const struct sset ao_q = { 4, 6, 0 }, ac_q = { 3, 6, 0 };
+        const struct sset ao_t = { 5, 6, 6 }, ac_t = { 4, 6, 0 };
+        family_alphabet_decode(th ? &ao_t : &ao_q, th ? &ac_t : &ac_q);
+    }
     family_long();
     {
         /* last: the one family in which a finding is open on the unchanged
@@ -1886,12 +2050,14 @@ main(int argc, char **argv)
               ? "payloads and raw streams of length 0..9 over {41,c0,db,dc,dd}; pairs of payloads <= 4 x {fresh, reused init-function, reused static-initialiser context}; garbage <= 4 x 1-3 frames of payload <= 2, garbage 5-6 x 1-2 frames of payload <= 1; "
                 "encode faults at every driver call (payload <= 5) x {-EIO,-EPIPE,-EAGAIN,-EINTR}; decode faults at every driver call (sink: 4 codes, source: -EIO,-EPIPE) with decoding continued, streams = class strings <= 6 + frame pairs (payload <= 2) + frame triples (payload <= 1); "
                 "source interruptions {-EAGAIN,-EINTR}: one at every source call (class strings <= 7 + frame pairs + triples), two at every pair of source calls (class strings <= 5 + frame pairs + triples), x 2 set-ups; "
-                "encoder sink scripts: 1 deviation (payload <= 6) and 2 deviations (payload <= 4) over 2n+3 call slots x {short, zero, -EAGAIN, -EINTR, -EIO}, FIFO blocks 1..8 (payload <= 6); "
+                "encoder sink scripts: 1 deviation (payload <= 6) and 2 deviations (payload <= 4) over 2n+3 call slots x {short, zero, -EAGAIN, -EINTR, -EIO, -ENODATA}, FIFO blocks 1..8 (payload <= 6); "
+                "error alphabet (every errno 1..133 and -134,-255,-256,-1000,-4095,-4096,-32768,-32769,-65536,INT_MIN+1,INT_MIN) at every driver call x {octet, chunk drivers}: encode payload <= 4 (source and sink), decode class strings <= 5 (octet) / <= 4 (chunk) + frame pairs and triples of payload <= 1 (sink: all codes, source: all but -EAGAIN/-EINTR) with decoding continued; "
                 "worst-case macro n <= 1100 and 2^k-2..2^k+2 (n <= SIZE_MAX/4) for k <= 62; ESC x all 256 second octets; all 65536 octet pairs, fills/ramps/cycles up to 1024"
               : "payloads and raw streams of length 0..7 over {41,c0,db,dc,dd}; pairs of payloads <= 3 x {fresh, reused init-function, reused static-initialiser context}; garbage <= 3 x (1-2 frames of payload <= 2, 3 frames of payload <= 1); "
                 "encode faults at every driver call (payload <= 3) x {-EIO,-EPIPE,-EAGAIN,-EINTR}; decode faults at every driver call (sink: 4 codes, source: -EIO,-EPIPE) with decoding continued, streams = class strings <= 5 + frame pairs (payload <= 2) + frame triples (payload <= 1); "
                 "source interruptions {-EAGAIN,-EINTR}: one at every source call (class strings <= 6 + frame pairs + triples), two at every pair of source calls (class strings <= 4 + frame pairs of payload <= 1), x 2 set-ups; "
-                "encoder sink scripts: 1 deviation (payload <= 4) and 2 deviations (payload <= 3) over 2n+3 call slots x {short, zero, -EAGAIN, -EINTR, -EIO}, FIFO blocks 1..8 (payload <= 5); "
+                "encoder sink scripts: 1 deviation (payload <= 4) and 2 deviations (payload <= 3) over 2n+3 call slots x {short, zero, -EAGAIN, -EINTR, -EIO, -ENODATA}, FIFO blocks 1..8 (payload <= 5); "
+                "error alphabet (every errno 1..133 and -134,-255,-256,-1000,-4095,-4096,-32768,-32769,-65536,INT_MIN+1,INT_MIN) at every driver call x {octet, chunk drivers}: encode payload <= 3 (source and sink), decode class strings <= 4 (octet) / <= 3 (chunk) + frame pairs of payload <= 1 (sink: all codes, source: all but -EAGAIN/-EINTR) with decoding continued; "
                 "worst-case macro n <= 1100 and 2^k-2..2^k+2 (n <= SIZE_MAX/4) for k <= 62; ESC x all 256 second octets; all 65536 octet pairs, fills/ramps/cycles up to 1024");
     return 0;
 }
@@ -1934,8 +2100,26 @@ statename(int s)
  *   F_SRC_AGAIN k   source call k answers -EAGAIN   (k = 0..len)
  *   F_SRC_EIO k     source call k answers -EIO      (k = 0..len)
  *   F_SNK_EIO k     sink call k answers -EIO        (k = 0..len-1)
+ *   F_SRC_ENODATA / F_SRC_EILSEQ / F_SNK_ENODATA / F_SNK_EILSEQ k
+ *                   the same with the two codes the decoder itself gives a
+ *                   meaning to (end of the source, invalid escape): answered
+ *                   by a driver they are errors like -EIO (the E-SPACE harness
+ *                   runs the whole alphabet from the initial contexts; here
+ *                   the sentinels are answered in every reachable context)
  * Which (stream, failure) pairs exist depends on the stream only. */
-enum fkind { F_NONE, F_SRC_AGAIN, F_SRC_EIO, F_SNK_EIO, F_N };
+enum fkind { F_NONE, F_SRC_AGAIN, F_SRC_EIO, F_SNK_EIO, F_SRC_ENODATA, F_SRC_EILSEQ, F_SNK_ENODATA, F_SNK_EILSEQ, F_N };
+static const bool F_IS_SINK[F_N] = { false, false, false, true, false, false, true, true };
+static int
+f_code(int fk)
+{
+    switch (fk) {
+    case F_SRC_AGAIN: return -EAGAIN;
+    case F_SRC_EIO: case F_SNK_EIO: return -EIO;
+    case F_SRC_ENODATA: case F_SNK_ENODATA: return -ENODATA;
+    case F_SRC_EILSEQ: case F_SNK_EILSEQ: return -EILSEQ;
+    default: return 0;
+    }
+}
 struct op {
     unsigned char len, fkind, pos;
     uint32_t idx;
@@ -1948,7 +2132,7 @@ ops_build(size_t maxlen, size_t maxlen_faults)
 {
     size_t cap = 0;
     for (size_t n = 0; n <= maxlen; ++n)
-        cap += (size_t)P5[n] * (n <= maxlen_faults ? 3 * n + 3 : 1);
+        cap += (size_t)P5[n] * (n <= maxlen_faults ? (F_N - 1) * (n + 1) + 1 : 1);
     OPS = calloc(cap, sizeof *OPS);
     if (OPS == NULL)
         mc_broken("out of memory");
@@ -1959,7 +2143,7 @@ ops_build(size_t maxlen, size_t maxlen_faults)
             if (n > maxlen_faults)
                 continue;
             for (int fk = F_SRC_AGAIN; fk < F_N; ++fk)
-                for (size_t k = 0; k < (fk == F_SNK_EIO ? n : n + 1); ++k) {
+                for (size_t k = 0; k < (F_IS_SINK[fk] ? n : n + 1); ++k) {
                     o.fkind = (unsigned char)fk;
                     o.pos = (unsigned char)k;
                     OPS[NOPS++] = o;
@@ -1976,14 +2160,14 @@ op_text(int op)
     unsigned char st[16];
     const struct op *o = &OPS[op < NOPS ? op : 0];
     nth_string(o->len, o->idx, st);
-    static const char *const fk[F_N] = { "", "source-call", "source-call", "sink-call" };
-    static const char *const fc[F_N] = { "", "-EAGAIN", "-EIO", "-EIO" };
+    static const char *const fk[2] = { "source-call", "sink-call" };
     if (op >= NOPS)
         snprintf(b, sizeof buf[0], "rfc1055_context_init(%s)", op == NOPS ? "classic" : "sof");
     else if (o->fkind == F_NONE)
         snprintf(b, sizeof buf[0], "%s", hex(st, o->len));
     else
-        snprintf(b, sizeof buf[0], "%s(%s %d answers %s)", hex(st, o->len), fk[o->fkind], o->pos, fc[o->fkind]);
+        snprintf(b, sizeof buf[0], "%s(%s %d answers %s)", hex(st, o->len), fk[F_IS_SINK[o->fkind]], o->pos,
+                 errname(f_code(o->fkind)));
     return b;
 }
 
@@ -2031,9 +2215,11 @@ main(int argc, char **argv)
      * answers), never by what state the implementation went to */
     static const char *const OUTCOME[2][F_N] = {
         { "derived-context", "derived-context-source-interrupted", "derived-context-source-error",
-          "derived-context-sink-error" },
+          "derived-context-sink-error", "derived-context-source-sentinel-code", "derived-context-source-sentinel-code",
+          "derived-context-sink-sentinel-code", "derived-context-sink-sentinel-code" },
         { "initial-context", "initial-context-source-interrupted", "initial-context-source-error",
-          "initial-context-sink-error" } };
+          "initial-context-sink-error", "initial-context-source-sentinel-code", "initial-context-source-sentinel-code",
+          "initial-context-sink-sentinel-code", "initial-context-sink-sentinel-code" } };
     /* Two passes over the queue.  Pass 0 explores with every operation and
      * judges all of them but the source interruptions, which it only executes
      * for their successors; pass 1 goes over the (then complete) set of
@@ -2083,12 +2269,12 @@ main(int argc, char **argv)
                     op_text(op), o->fkind == F_SRC_AGAIN ? " at=" : "",
                     o->fkind == F_SRC_AGAIN ? AT_NAME[position_class(sof, st, len, o->pos)] : "", path);
             struct inject inj = NO_INJECT;
-            if (o->fkind == F_SRC_AGAIN || o->fkind == F_SRC_EIO) {
-                inj.src_at = o->pos;
-                inj.code = o->fkind == F_SRC_AGAIN ? -EAGAIN : -EIO;
-            } else if (o->fkind == F_SNK_EIO) {
-                inj.snk_at = o->pos;
-                inj.code = -EIO;
+            if (o->fkind != F_NONE) {
+                if (F_IS_SINK[o->fkind])
+                    inj.snk_at = o->pos;
+                else
+                    inj.src_at = o->pos;
+                inj.code = f_code(o->fkind);
             }
             ctx_image_in = k.image;
             run_decoder(kc.flags, (int)kc.state, false, K_OCTET, st, len, inj);
@@ -2197,9 +2383,9 @@ main(int argc, char **argv)
     if (set.n <= 2)
         mc_cap("no context but the two initial ones was ever reached");
     mc.states += (int64_t)set.n;
-    char bound[560];
+    char bound[640];
     snprintf(bound, sizeof bound,
-             "every context image reachable from both initial contexts, every stream of length 0..%zu over {41,c0,db,dc,dd} decoded to exhaustion from each, fault-free and (length 0..%zu) with one driver failure at every call position (source -EAGAIN, source -EIO, sink -EIO) followed by continued use, %s (%zu contexts known, %lld expanded; the search stops when more than %d are known)",
+             "every context image reachable from both initial contexts, every stream of length 0..%zu over {41,c0,db,dc,dd} decoded to exhaustion from each, fault-free and (length 0..%zu) with one driver failure at every call position (source -EAGAIN, source/sink -EIO, source/sink -ENODATA, source/sink -EILSEQ) followed by continued use, %s (%zu contexts known, %lld expanded; the search stops when more than %d are known)",
              maxlen, maxlen_faults, capped ? "NO fixpoint within the context cap" : "to fixpoint", set.n,
              (long long)expanded, CTX_CAP);
     mc_set_free(&set);
